@@ -22,6 +22,8 @@ CONSTANTS
   Dur <- MCDur
   TunnelKinds <- MCTunnelKinds
   GrpcKinds <- MCGrpcKinds
+  LateStartKinds <- %(late)s
+  LateListenerLeaks = %(leak)s
   MaxServers = %(ms)d
   MaxItems = %(mi)d
   MaxStart = %(st)d
@@ -32,13 +34,13 @@ INVARIANTS TypeOK NoAcceptAfterStart ShortCompletes NothingRunsAtReturn BoundedR
 PROPERTIES NoNewWorkAfterStart
 CHECK_DEADLOCK FALSE
 """
-ACTIONS = ["AcceptAny", "FinishAny", "ShutdownStart", "DrainAny", "DeadlineAny", "Return", "Tick"]
+ACTIONS = ["AcceptAny", "FinishAny", "ShutdownStart", "DrainAny", "DeadlineAny", "Return", "Tick"]   # StartServeAny: only in gen_late
 TICK = 0.150
 WAIT_TICKS = 4
 
 
 def cfg(**k):
-    d = dict(spec="Spec", ms=2, mi=2, st=1, gid="FALSE", ko="MCKindOrder", do="MCDurOrder")
+    d = dict(spec="Spec", ms=2, mi=2, st=1, gid="FALSE", ko="MCKindOrder", do="MCDurOrder", late="MCNoKinds", leak="FALSE")
     d.update(k)
     return CFG % d
 
@@ -91,6 +93,7 @@ def run(ctx):
     ctx.assumptions += [
         "1 tick = 150 ms, W = proxy.shutdownwait = 4 ticks = 600 ms, slack = 2 s: Shutdown must return within 2.6 s; short work = 150 ms (4x below W), long = 6 s (10x above), never-ending work ends with the scenario",
         "work that ends just within the wait ('edge'): scenarios that carry it run with 1 tick = 500 ms (W = 2 s); the work ends at the absolute moment shutdown start + W - 75 ms; it must complete; an incomplete item is a violation only if the client saw it end earlier than W - 25 ms after the start (a later cut may be the deadline itself), otherwise it is counted as skipped",
+        "a signal during start-up: proxy.serve is taken apart by the harness (server put into the registry; handed its listener 50 ms after Shutdown was called) for http, https, tcp, tcp+sni, tcp+tls and grpc; the tcpproxy-based https+tcp+sni listener and moments inside ListenTCP are not covered",
         "stalled connections ('stall'): the client connects and sends nothing, or half of a real TLS ClientHello (TLS-terminating kinds), 30 ms before Shutdown is called; nothing is asserted about them except that they do not delay the return",
         "besides the served-connection probe at +100 ms, a plain TCP connect at W/2 and at 0.9 W after the start must be refused for every listener (every listener of fabio closes its socket first; being accepted and dropped later is only tolerated at +100 ms)",
         "one listener per kind in a configuration ({http, https, tcp, tcp+sni, grpc, https+tcp+sni}; 'k~2' = a second listener on the same port of 127.0.0.2), <=2 work items per listener, all in flight (first answer bytes received by the client; for a half-closed tunnel: the upstream has seen the client's EOF) before Shutdown is called",
@@ -109,16 +112,20 @@ def run(ctx):
     sink3 = os.path.join(ctx.tmp, "c18.twins")
     sink4 = os.path.join(ctx.tmp, "c18.edge")
     sink5 = os.path.join(ctx.tmp, "c18.simedge")
+    sink6 = os.path.join(ctx.tmp, "c18.late")
     jobs = [
-        ("gen_edge", dict(cfg_text=cfg(spec="GenSpec", ms=2, st=1, do="MCDurOrderEdge"), json_sink=sink4, workers=4, timeout=ctx.pick(300, 1500))),
+        # a signal during start-up: servers that are in the registry but have not been handed their listener yet
+        ("gen_late", dict(cfg_text=cfg(spec="GenSpec", ms=2, mi=1, st=1, late="MCLateKinds"), json_sink=sink6, workers=2, timeout=ctx.pick(300, 900))),
+        ("gen_edge", dict(cfg_text=cfg(spec="GenSpec", ms=2, mi=ctx.pick(1, 2), st=1, do="MCDurOrderEdge"), json_sink=sink4, workers=4, timeout=ctx.pick(300, 1500))),
         ("sim_edge", dict(cfg_text=cfg(spec="GenSpec", ms=7, st=1, do="MCDurOrderEdge"), json_sink=sink5, simulate=ctx.pick(600, 4000), depth=80, seed=ctx.seed, timeout=600)),
         ("gen", dict(cfg_text=cfg(spec="GenSpec", ms=2, st=ctx.pick(1, 2)), json_sink=sink, workers=4, timeout=ctx.pick(300, 1500), coverage=ctx.thorough)),
-        ("gen_twins", dict(cfg_text=cfg(spec="GenSpec", ms=2, st=1, ko="MCKindOrderTwins"), json_sink=sink3, workers=4, timeout=ctx.pick(300, 1500))),
+        ("gen_twins", dict(cfg_text=cfg(spec="GenSpec", ms=2, mi=ctx.pick(1, 2), st=1, ko="MCKindOrderTwins"), json_sink=sink3, workers=4, timeout=ctx.pick(300, 1500))),
         ("sim", dict(cfg_text=cfg(spec="GenSpec", ms=6, st=2), json_sink=sink2, simulate=ctx.pick(400, 4000), depth=80, seed=ctx.seed, timeout=600)),
         ("mc_deviation", dict(cfg_text=cfg(ms=1, gid="TRUE"), workers=2, timeout=300)),
     ]
     if ctx.thorough:
         jobs.append(("mc3", dict(cfg_text=cfg(ms=3, st=1, ko="MCKindOrder4"), workers=4, timeout=1500)))
+        jobs.append(("mc_deviation_late", dict(cfg_text=cfg(ms=1, mi=1, late="MCLateKinds", leak="TRUE"), workers=2, timeout=300)))
     results = {}
 
     def tlc_job(name, kw):
@@ -143,6 +150,10 @@ def run(ctx):
         if name == "mc_deviation":
             if r.violated != "BoundedReturn":
                 ctx.inconclusive("model self-test: GrpcIgnoresDeadline=TRUE should violate BoundedReturn, got %r %r" % (r.violated, r.error))
+                return
+        elif name == "mc_deviation_late":
+            if r.violated != "NoAcceptAfterStart":
+                ctx.inconclusive("model self-test: LateListenerLeaks=TRUE should violate NoAcceptAfterStart, got %r %r" % (r.violated, r.error))
                 return
         elif name in ("sim", "sim_edge"):
             if r.error or r.violated or r.timed_out:
@@ -190,8 +201,23 @@ def run(ctx):
     if edge_missing or stall_missing:
         ctx.inconclusive("the generator produced no edge / stalled-connection work for %s" % sorted(edge_missing | stall_missing))
         return
+    # (f) servers handed their listener after shutdown began: fewest scenarios that cover every such kind
+    lates = sorted((s for s in read(sink6) if s.get("late")), key=lambda x: json.dumps(x, sort_keys=True))
+    rnd.shuffle(lates)
+    late_cover, todo = [], {"http", "https", "tcp", "tcp+sni", "grpc", "tcp+tls"}
+    while todo:
+        best = max(lates, key=lambda sc: (len(set(sc["late"]) & todo), len(sc["items"])), default=None)
+        if best is None or not set(best["late"]) & todo:
+            break
+        late_cover.append(best)
+        todo -= set(best["late"])
+    if todo:
+        ctx.inconclusive("the generator produced no start-up scenario for %s" % sorted(todo))
+        return
+    if ctx.thorough:
+        late_cover += stratified(lates, 16, rnd)
     small_edge = [s for s in read(sink4) if s["items"]]
-    chosen += edge_cover + stall_cover + stratified(small_edge, ctx.pick(1, 40), rnd)
+    chosen += edge_cover + stall_cover + late_cover + stratified(small_edge, ctx.pick(1, 40), rnd)
     if not idle or not mute or not twins:
         ctx.inconclusive("the generator produced no idle-listener / half-closed-tunnel / shared-port scenario")
         return
@@ -280,11 +306,12 @@ def binary(ctx):
             except OSError:
                 pass
     threading.Thread(target=upstream, daemon=True).start()
-    hp, tp, ui = free_port(), free_port(), free_port()
+    hp, tp, ui, dp = free_port(), free_port(), free_port(), free_port()
     wait_s = 1.0
     args = [exe, "-registry.backend", "static", "-registry.static.routes",
-            "route add web / http://127.0.0.1:%d/\nroute add tun :%d tcp://127.0.0.1:%d" % (upport, tp, upport),
-            "-proxy.addr", "127.0.0.1:%d;proto=http,127.0.0.1:%d;proto=tcp" % (hp, tp),
+            "route add web / http://127.0.0.1:%d/\nroute add tun :%d tcp://127.0.0.1:%d\nroute add dyn :%d tcp://127.0.0.1:%d"
+            % (upport, tp, upport, dp, upport),
+            "-proxy.addr", "127.0.0.1:%d;proto=http,127.0.0.1:%d;proto=tcp,127.0.0.1:0;proto=tcp-dynamic;refresh=100ms" % (hp, tp),
             "-ui.addr", "127.0.0.1:%d" % ui, "-proxy.shutdownwait", "%dms" % int(wait_s * 1000),
             "-proxy.deregistergraceperiod", "0s", "-insecure", "-log.level", "WARN"]
     log = open(os.path.join(ctx.tmp, "fabio-c18.log"), "w")
@@ -311,6 +338,15 @@ def binary(ctx):
         t.sendall(b"GET /tunnel HTTP/1.1\r\nHost: x\r\n\r\n")
         t.settimeout(5)
         t.recv(4096)
+        # the dynamic listener (opened by the refresh loop for the route's port) must be up before the signal
+        dyn_up = False
+        for _ in range(100):
+            try:
+                socket.create_connection(("127.0.0.1", dp), timeout=0.3).close()
+                dyn_up = True
+                break
+            except OSError:
+                time.sleep(0.05)
         t0 = time.time()
         p.send_signal(signal.SIGTERM)
         time.sleep(0.1)
@@ -328,6 +364,15 @@ def binary(ctx):
                 x.close()
             except OSError:
                 refused += 1
+        dyn_late = None
+        if dyn_up:
+            # half way through the wait the dynamic port must be closed and stay closed
+            time.sleep(max(0.0, t0 + wait_s / 2 - time.time()))
+            try:
+                socket.create_connection(("127.0.0.1", dp), timeout=0.3).close()
+                dyn_late = True
+            except OSError:
+                dyn_late = False
         bound = wait_s + 2.0 + 1.0          # wait + slack + process exit
         try:
             p.wait(timeout=bound - (time.time() - t0))
@@ -339,6 +384,12 @@ def binary(ctx):
             ctx.violation({"clause": "bounded-return", "sub": "binary"},
                           "fabio binary had not exited %.1fs after SIGTERM with proxy.shutdownwait=%.1fs and never-ending work in flight" % (took, wait_s),
                           replay={"sub": "binary", "case": {"args": args[1:]}})
+        if dyn_late:
+            ctx.violation({"clause": "accept-after-start", "sub": "binary", "kind": "tcp-dynamic"},
+                          "fabio binary: the tcp-dynamic listener on :%d accepted a TCP connection %.1fs after SIGTERM (proxy.shutdownwait=%.1fs): the refresh loop opened it again"
+                          % (dp, wait_s / 2, wait_s), replay={"sub": "binary", "case": {"args": args[1:]}})
+        elif dyn_late is None:
+            ctx.log("binary: the tcp-dynamic listener did not come up; nothing said about it")
         if refused != 2:
             ctx.violation({"clause": "accept-after-start", "sub": "binary"},
                           "fabio binary: %d of 2 connections made 100 ms after SIGTERM were served" % (2 - refused),
